@@ -737,3 +737,157 @@ def run_tree_set(ob, scratch):
             return tot
     tot.update(verdict='inconclusive', detail='more than 24 allocations on a path')
     return tot
+
+
+def run_tree_range(ob, scratch):
+    """BTree_findRangeEnd (one end of a range search: low/high, inclusive/exclusive) of a native-key family on a fake
+    multi-level tree: the (leaf, offset) it reports is the position of the smallest key >= (>) the bound, resp. the
+    largest key <= (<) it, in chain order; 0 when no key qualifies; nothing is modified, every node is unpinned, the
+    reported leaf (and only it) got one more reference."""
+    from engine import shapes as shp
+    t0 = time.time()
+    P = ob['params']
+    fam, tpl, low, excl = P['family'], _tup(P['tpl']), P['low'], P['exclude']
+    m = shp.n_ranks(tpl)
+    res = {'id': ob['id'], 'names': ['n'] + ['k%d' % i for i in range(m)], 'twin_refuted': False, 'witness': None, 'twin_s': 0}
+    kb, ksigned = KEYT[fam[0]]
+    vb, vsigned = KEYT[fam[1]]
+    aw, vw = z3.BitVec('n', kb), z3.BitVec('v', vb)
+    keys = [z3.BitVec('k%d' % i, kb) for i in range(m)]
+    vals = [z3.BitVec('w%d' % i, vb) for i in range(m)]
+    ltk = (lambda a_, b_: a_ < b_) if ksigned else z3.ULT
+    lek = (lambda a_, b_: a_ <= b_) if ksigned else z3.ULE
+    pre = [ltk(keys[i], keys[i + 1]) for i in range(m - 1)]
+    try:
+        module = build_conv(fam, scratch)
+        it, mem, T, L_ = setup(module, fam, 2, 2, ob.get('timeout', 300), P.get('is_set', False))
+        it.budget = 600000
+        _word_stubs(it, mem, L_, fam, aw, vw)
+        root = T.build(mem, tpl, keys, vals, spare=0, stored=True)
+        outb = mem.alloc(8, 'out-bucket')
+        outo = mem.alloc(4, 'out-offset')
+        mem.store(outb, 8, llsym.bv(0, 64))
+        mem.store(outo, 4, llsym.bv(0x55555555, 32))
+        # chain-ordered positions and reference counts before the call
+        w0 = T.walk(mem, None, None)
+        if w0['problems']:
+            raise llsym.Unsupported('harness defect: unsound pre-state: %s' % w0['problems'][:2])
+        pos = []
+        for a_ in w0['nodes']:
+            if T.typ(mem, a_) == B_TYPE:
+                kind, n_, ks_, vs_, nx_ = T.serial(mem, a_)
+                pos += [(a_, i, ks_[i]) for i in range(n_)]
+        rc0 = {a_: T.c(mem.load(a_, 8)) for a_ in w0['nodes']}
+        ser0 = {a_: T.serial(mem, a_) for a_ in w0['nodes']}
+        outs = it.run('BTree_findRangeEnd', [llsym.bv(root, 64), llsym.bv(L_['obj'], 64), llsym.bv(low, 32), llsym.bv(excl, 32),
+                                             llsym.bv(outb, 64), llsym.bv(outo, 64)], mem, pre)
+    except (llsym.Unsupported, llsym.Budget) as e:
+        res.update(verdict='inconclusive', detail='%s: %s' % (type(e).__name__, e), paths=0, solver_queries=0, solver_s=0, wall_s=time.time() - t0)
+        return res
+    s = z3.Solver()
+    s.add(*pre)
+    q, ts, cex, detail, reached = 0, 0.0, None, None, 0
+    # "qualifies": key >= / > bound (low end), key <= / < bound (high end)
+    if low:
+        qual = (lambda k_: ltk(aw, k_)) if excl else (lambda k_: lek(aw, k_))
+    else:
+        qual = (lambda k_: ltk(k_, aw)) if excl else (lambda k_: lek(k_, aw))
+    for o in outs:
+        s.push()
+        s.add(*o.cond)
+        t1 = time.perf_counter()
+        feas = str(s.check())
+        q += 1
+        if feas != 'sat':
+            s.pop()
+            ts += time.perf_counter() - t1
+            if feas == 'unknown':
+                cex, detail = 'unknown', 'solver unknown on a path condition'
+                break
+            continue
+        if o.kind in ('assert', 'memory'):
+            cex, detail = s.model(), ('assertion reachable: ' if o.kind == 'assert' else 'memory error: ') + str(o.detail)
+            s.pop()
+            break
+        if o.kind == 'dead':
+            s.pop()
+            continue
+        reached += 1
+        try:
+            ret = T.c(o.ret)
+            ret = ret - (1 << 32) if ret >> 31 else ret
+            problems = []
+            for a_ in w0['nodes']:
+                st = T.c(o.mem.load(a_ + T.blay[2][6], 4)) & 255
+                if st != 0:
+                    problems.append('node %#x left in persistence state %d' % (a_, st))
+                if T.serial(o.mem, a_)[1] != ser0[a_][1] or T.serial(o.mem, a_)[4] != ser0[a_][4]:
+                    problems.append('node %#x modified by a search' % a_)
+            rb = T.c(o.mem.load(outb, 8))
+            conds = []
+            if ret == 1:
+                off = T.c(o.mem.load(outo, 4))
+                j = [i for i, (a_, i_, _) in enumerate(pos) if a_ == rb and i_ == off]
+                if not j:
+                    problems.append('reported position (%#x, %d) is not an entry of the tree' % (rb, off))
+                else:
+                    j = j[0]
+                    conds.append(qual(pos[j][2]))
+                    nb = j - 1 if low else j + 1
+                    if 0 <= nb < len(pos):
+                        conds.append(z3.Not(qual(pos[nb][2])))
+            elif ret == 0:
+                if pos:
+                    conds.append(z3.Not(qual(pos[-1][2] if low else pos[0][2])))
+            else:
+                problems.append('BTree_findRangeEnd returned %d for a representable bound' % ret)
+            for a_ in w0['nodes']:
+                want = rc0[a_] + (1 if (ret == 1 and a_ == rb) else 0)
+                if T.c(o.mem.load(a_, 8)) != want:
+                    problems.append('reference count of node %#x is %d, expected %d' % (a_, T.c(o.mem.load(a_, 8)), want))
+            if (T.c(o.mem.load(L_['slot'](root), 8)) & 1) or any(T.c(o.mem.load(L_['slot'](a_), 8)) & 1 for a_ in w0['nodes']):
+                problems.append('a search announced a change')
+        except llsym.MemError as me:
+            cex, detail = s.model(), 'memory error while reading the result: %s' % me
+            s.pop()
+            break
+        except llsym.Unsupported as e:
+            cex, detail = 'unknown', str(e)
+            s.pop()
+            break
+        if problems:
+            cex, detail = s.model(), 'BTree_findRangeEnd: ' + '; '.join(problems[:3])
+            s.pop()
+            break
+        r_ = str(s.check(z3.Not(z3.And(*conds)))) if conds else 'unsat'
+        q += 1
+        ts += time.perf_counter() - t1
+        if r_ == 'sat':
+            cex, detail = s.model(), 'BTree_findRangeEnd(low=%d, exclude_equal=%d) reports a position that is not the range end (ret %d)' % (low, excl, ret)
+            s.pop()
+            break
+        if r_ != 'unsat':
+            cex, detail = 'unknown', 'solver unknown on the post-condition'
+            s.pop()
+            break
+        s.pop()
+    if cex == 'unknown':
+        verdict, cex = 'inconclusive', None
+    elif cex is not None:
+        verdict = 'counterexample'
+        mdl = cex
+
+        def gv(x):
+            v_ = mdl.eval(x, model_completion=True).as_long()
+            return v_ - (1 << kb) if (ksigned and v_ >> (kb - 1)) else v_
+        cex = {'n': gv(aw)}
+        for i in range(m):
+            cex['k%d' % i] = gv(keys[i])
+    elif reached == 0:
+        verdict, detail = 'inconclusive', 'vacuous: no feasible returning path'
+    else:
+        verdict = 'confirmed'
+    res.update(verdict=verdict, detail=detail, cex=cex, paths=len(outs), solver_queries=it.stats['queries'] + q,
+               solver_s=round(it.stats['solver_s'] + ts, 3), wall_s=round(time.time() - t0, 2), twin_refuted=reached > 0,
+               instr=it.stats['instr'], witness={'returning_paths': reached})
+    return res
